@@ -394,8 +394,8 @@ func (sc *SidecarScope) collectImportedServices(ps *PushContext, configNamespace
 			v := vs.Spec.(*networking.VirtualService)
 			for h, ports := range virtualServiceDestinationsFilteredBySourceNamespace(v, configNamespace) {
 				byNamespace := ps.ServiceIndex.HostnameAndNamespace[host.Name(h)]
-				// Default to this hostname in our config namespace
-				if s, ok := byNamespace[configNamespace]; ok {
+				// Default to this hostname in our config namespace, if it is visible from there
+				if s, ok := byNamespace[configNamespace]; ok && ps.IsServiceVisible(s, configNamespace) {
 					// This won't overwrite hostnames that have already been found eg because they were requested in hosts
 					if matchedSvc := serviceMatchingPort(s, ilw, ports); matchedSvc != nil {
 						sc.appendSidecarServices(servicesAdded, matchedSvc)
